@@ -40,7 +40,7 @@ pub fn run_cli(registry: fn() -> Vec<Box<dyn Check>>, selftest: fn() -> Result<(
             exit(2)
         });
         let check = find(registry(), &id);
-        let data = crate::fuzz::words(&bytes, check.entropy_len());
+        let data = words(&bytes, check.entropy_len());
         let mut obs = Obs { want_desc: true, ..Obs::default() };
         let r = guarded_case(check.as_ref(), &data, &mut obs);
         let (sig, msg) = match &r {
